@@ -102,6 +102,7 @@ static int xe_main(int argc, char **argv) {
   xe_str = malloc(sizeof(char *) * (xe_nstr + 1));
   { long p = 0; int j = 0; while (p < slen) { xe_str[j++] = sbuf + p; p += strlen(sbuf + p) + 1; } }
   rs = calloc(n + 1, sizeof(xv_resp));
+  if (getenv("XV_SETLOCALE")) setlocale(LC_ALL, "");      /* run under the locale of the environment (the thread monitor's reference for its comma-locale runs) */
   if (getenv("XV_XRAYINIT")) XRayInit();
   noslot = getenv("XV_NOSLOT") != NULL;     /* call everything WITHOUT an error slot (status is then always 0) */
   for (k = 0; k < n; k++) {
